@@ -5,6 +5,7 @@ import GlmVerif.Props.C18.Bits
 import GlmVerif.Props.C18.Rotate
 import GlmVerif.Props.C18.Interleave
 import GlmVerif.Props.C18.Gtx
+import GlmVerif.Props.C18.Sqrt
 /-!
 # C18 — power-of-two, multiple and bit-field utilities return the documented integer
 
@@ -19,7 +20,8 @@ The theorems live in the modules imported above:
 * `Bits`            findNSB (8/16 bit), mask, bitfieldFillOne/Zero
 * `Rotate`          KNOWN FINDING: bitfieldRotateRight/Left are swapped — negation on a witness + `_partial` theorems
 * `Interleave`      every bitfieldInterleave overload = "bit i of argument k at n·i+k"; deinterleave ∘ interleave = id
-* `Gtx`             nlz, pow (KNOWN FINDING pow(x<0, 0) = -1), mod, factorial, sqrt (small range)
+* `Gtx`             nlz, pow (KNOWN FINDING pow(x<0, 0) = -1), mod, factorial
+* `Sqrt`            sqrt(uint), sqrt(int) = ⌊√x⌋ for all inputs (Newton iteration, by induction; Mathlib tactics)
 
 The summary theorem below only ties a few of them together so that this module has content of its own.
 -/
